@@ -11,7 +11,7 @@ Definition parseable (b : bytes) : bool :=
 Definition is_cannot_trash (t : str) : bool := starts_with t ($"cannot trash ").
 Definition put_plain (o : op) : bool :=
   match o with
-  | OpenExcl _ | WriteFd _ | CloseFd | Remove _ | Rmtree _ | Move _ _ | Input _ => false
+  | OpenExcl _ | WriteFd _ | CloseFd | Remove _ | Rmtree _ | Move _ _ | Input _ | Makedirs _ _ => false
   | Log INFO _ _ => false
   | Log WARNING _ t => negb (is_cannot_trash t)
   | _ => true
@@ -20,6 +20,7 @@ Definition put_plain (o : op) : bool :=
 Section PutSafe.
 Variable L : plogic.
 Hypothesis Hplain : forall o, put_plain o = true -> OKop L o.
+Hypothesis Hmk : forall p, OKop L (Makedirs p 448).   (* every directory trash-put creates is created 0700 *)
 Notation TT := (T L).
 Ltac aret := first [apply T_ret; exact I | apply T_throw].
 Ltac plain := apply Hplain; reflexivity.
@@ -68,9 +69,9 @@ Proof.
   eapply T_bind; [apply (safe_volume_of L Hscan_put)|]. intros; aret.
 Qed.
 
-Lemma safe_mkdir_p p m : TT (mkdir_p p m) (fun _ => True).
+Lemma safe_mkdir_p p : TT (mkdir_p p 448) (fun _ => True).
 Proof.
-  unfold mkdir_p. apply T_catch; [apply T_call_unit; plain|].
+  unfold mkdir_p. apply T_catch; [apply T_call_unit; apply Hmk|].
   intros e q He. destruct (is_OSError e); inversion He.
   eapply T_bind; [apply T_call_bool; plain|]. intros d _. destruct d; aret.
 Qed.
